@@ -202,6 +202,7 @@ namespace
                 {
                     if (op[0] == 's') { auto eq = op.find('='); const long k = std::stol(op.substr(1, eq - 1)); m.imap[k] = std::stol(op.substr(eq + 1)); touched.insert(k); effective = true; }
                     else if (op[0] == 'e') { const long k = std::stol(op.substr(1)); if (m.imap.count(k)) { removed_value[k] = m.imap[k]; m.imap.erase(k); effective = true; } touched.erase(k); }
+                    else if (op[0] == 'x') { auto eq = op.find('='); const long k = std::stol(op.substr(1, eq - 1)); if (m.imap.count(k)) { removed_value[k] = std::stol(op.substr(eq + 1)); m.imap.erase(k); effective = true; touched.erase(k); } }
                     else if (op[0] == 'c') { if (!m.imap.empty()) effective = true; for (auto &[k, v] : m.imap) removed_value[k] = v; m.imap.clear(); touched.clear(); }
                     else if (op[0] == 'B') for (long k = 4; k <= 12; ++k) { m.imap[k] = k * 10; touched.insert(k); effective = true; }
                 }
@@ -491,7 +492,7 @@ void verif_enumerate(verif::Ctx &ctx)
     std::vector<Space> spaces = {
         {"ts", {"v1", "v2", "i"}, 2, th ? 6 : 5},
         {"tss", {"+1", "+2", "-1", "-2", "c", "B", "D"}, 2, th ? 4 : 3},
-        {"tsd", {"s1=5", "s1=6", "s2=5", "e1", "e2", "c", "B"}, 2, th ? 4 : 3},
+        {"tsd", {"s1=5", "s1=6", "s2=5", "e1", "e2", "c", "B", "x1=9"}, 2, th ? 4 : 3},
         {"tsds", {"a1:1", "a1:2", "r1:1", "a2:1", "e1", "e2"}, 2, th ? 4 : 3},
         {"tsl", {"0=1", "0=2", "1=1"}, 2, th ? 5 : 4},
         {"tsb", {"a=1", "a=2", "b=1", "W1:1", "W2:1", "W1:-"}, 2, th ? 4 : 3},
@@ -500,7 +501,7 @@ void verif_enumerate(verif::Ctx &ctx)
     };
     // a second slice: longer mutation lists per cycle over fewer cycles (cancellation / resurrection chains)
     spaces.push_back({"tss", {"+1", "+2", "-1", "-2", "c", "B", "D"}, 3, 2});
-    spaces.push_back({"tsd", {"s1=5", "s1=6", "s2=5", "e1", "e2", "c", "B"}, 3, 2});
+    spaces.push_back({"tsd", {"s1=5", "s1=6", "s2=5", "e1", "e2", "c", "B", "x1=9"}, 3, 2});
     spaces.push_back({"tsds", {"a1:1", "a1:2", "r1:1", "a2:1", "e1", "e2"}, 3, 2});
     for (auto &sp : spaces)
     {
